@@ -258,7 +258,7 @@ func RunTransfer(env *Env, progs []SessProg, opts TransferOpts) *RunResult {
 				defer inner.Done()
 				runWriter(c, upKey, prog.Up, &sr.Up, bump, abort, firstWriteDone)
 			}()
-			if env.Cfg.NoWait {
+			if env.Cfg.NoWait || env.Cfg.RawClient {
 				// In 0-RTT mode the client writes first, as documented.
 				select {
 				case <-firstWriteDone:
